@@ -5,7 +5,7 @@
 # NOTE: the Lean project is shared: the checks of C02 and C11 regenerate a table from the source they are pointed at, so never
 # run a C02 / C11 seed concurrently with any other check (a mutated LexerRules.lean breaks every build that imports the parser);
 # every check restores the tables it does not own before building (harness/main.py), which covers sequential runs only.
-P="$1"; K="$2"; N="$3"; W=/tmp/mut-$P; D=$W/out/$K
+P="$1"; K="$2"; N="$3"; W=${MUTPREFIX:-/tmp/mut-}$P; D=$W/out/$K
 cd "$W" || exit 2
 git checkout -q -- . 
 export JAQALPAQ_RUN_EMULATOR=1
@@ -26,6 +26,6 @@ if [ "$C" = 0 ] && [ "$Q" != 0 ]; then
   cd /verif && PYTHONPATH=/verif /venv/bin/python -m harness.store_seed "$D" "$P-$N" "{\"$P\": \"$DET\"}" >/dev/null
   /venv/bin/python - "$P-$N" "$T" <<'PY'
 import json,sys
-p=f"/verif/seeded/{sys.argv[1]}/meta.json"; m=json.load(open(p)); m["round"]=6; m["tests_with_patch"]=sys.argv[2]; json.dump(m,open(p,"w"),indent=1)
+p=f"/verif/seeded/{sys.argv[1]}/meta.json"; m=json.load(open(p)); m["round"]=int(__import__("os").environ.get("ROUND","6")); m["tests_with_patch"]=sys.argv[2]; json.dump(m,open(p,"w"),indent=1)
 PY
 fi
